@@ -655,7 +655,22 @@ class _Num(SV):
             if z3.is_int_value(b) and b.as_long() > 0:
                 return mk_num(a % b)
             return mk_num(a - b * floordiv_term(a, b))
-        raise Unsupported("modulo of reals")
+        # real modulo (A-float: floats as reals): a == q*b + r with an integer quotient q and 0 <= r < b
+        # for b > 0 (Python: the result has the sign of the divisor).  q is a fresh integer defined by
+        # these constraints (it exists and is unique), which keeps the only non-linear term q*b explicit.
+        c = ctx()
+        if z3.is_int(a):
+            a = z3.ToReal(a)
+        if z3.is_int(b):
+            b = z3.ToReal(b)
+        q = z3.Int(c.fresh_name("quot"))
+        r = z3.Real(c.fresh_name("rem"))
+        c.assume(a == z3.ToReal(q) * b + r)
+        if c.decide(b > 0):
+            c.assume(z3.And(r >= 0, r < b))
+        else:
+            c.assume(z3.And(r <= 0, r > b))
+        return SReal(r)
 
     def __mod__(self, o):
         a, b = _coerce2(self, o)
